@@ -18,6 +18,17 @@ Shape == {"same", "single", "second", "virtual", "two"}
 Pos   == {0, 1, 2}
 Cat   == {"val_l", "val_r", "lref", "clref", "rref", "moveonly"}
 
+(* how the result comes back: by value, nothing, a reference, a move-only object, a copy-counting object.  The   *)
+(* return kind is a derived attribute (it rotates through the family, so every parameter kind and every category *)
+(* meets every return kind without multiplying the number of programs by five)                                   *)
+RetSeq == <<"val", "void", "ref", "moveonly", "tracked">>
+Ret == {RetSeq[i] : i \in DOMAIN RetSeq}
+KindIdx == "ref" :> 0 @@ "rref" :> 1 @@ "ptr" :> 2 @@ "shared" :> 3 @@ "cshared" :> 4 @@ "vptr" :> 5 @@ "vshared" :> 6 @@ "cvptr" :> 7 @@ "cvshared" :> 8
+ShapeIdx == "same" :> 0 @@ "single" :> 1 @@ "second" :> 2 @@ "virtual" :> 3 @@ "two" :> 4
+CatIdx == "val_l" :> 0 @@ "val_r" :> 1 @@ "lref" :> 2 @@ "clref" :> 3 @@ "rref" :> 4 @@ "moveonly" :> 5
+RetOf(k, s, p, c) == RetSeq[((KindIdx[k] + 2 * ShapeIdx[s] + p + 3 * CatIdx[c]) % 5) + 1]
+Family == {[kind |-> k, shape |-> s, pos |-> p, cat |-> c, ret |-> RetOf(k, s, p, c)] : k \in Kind, s \in Shape, p \in Pos, c \in Cat}
+
 SharedKinds == {"shared", "cshared", "vshared", "cvshared"}
 RefCats == {"lref", "clref", "rref"}
 
@@ -27,19 +38,24 @@ Accept(sc, r) ==
     /\ r.oid_ok                        \* ... of the very object the caller passed
     /\ (sc.kind \in SharedKinds => r.owner_ok)       \* same shared ownership
     /\ r.nv_ok                         \* non-virtual argument: same referent / equal value
-    /\ r.ret_ok                        \* the return value comes back unchanged
+    /\ r.ret_ok                        \* the result comes back unchanged: equal value, or the very object for a reference
+    /\ r.rcopies = 0                   \* nothing is copied between the definition's entry and the caller getting the result
     /\ (sc.cat \in RefCats => r.copies = 0 /\ r.moves = 0)
     /\ (sc.cat = "val_r" => r.copies = 0)            \* an rvalue is never copied
     /\ (sc.cat = "val_l" => r.copies = 1)            \* exactly the copy made at the call site
     /\ (sc.cat = "moveonly" => r.copies = 0)
 
 VARIABLE sc
-AInit == sc \in [kind : Kind, shape : Shape, pos : Pos, cat : Cat]
+AInit == sc \in Family
 ASpec == AInit /\ [][UNCHANGED sc]_sc
 CONSTANT EMIT
 EmitA == IF EMIT THEN PrintT(ToJson(sc)) ELSE TRUE
 (* sanity of the acceptance condition: a perfect report is accepted, a report with a wrong address is not *)
 Perfect == [self_ok |-> TRUE, oid_ok |-> TRUE, owner_ok |-> TRUE, nv_ok |-> TRUE, ret_ok |-> TRUE,
-            copies |-> IF sc.cat = "val_l" THEN 1 ELSE 0, moves |-> 0]
-AcceptSane == Accept(sc, Perfect) /\ ~Accept(sc, [Perfect EXCEPT !.self_ok = FALSE]) /\ ~Accept(sc, [Perfect EXCEPT !.copies = 2])
+            copies |-> IF sc.cat = "val_l" THEN 1 ELSE 0, moves |-> 0, rcopies |-> 0]
+AcceptSane == Accept(sc, Perfect) /\ ~Accept(sc, [Perfect EXCEPT !.self_ok = FALSE]) /\ ~Accept(sc, [Perfect EXCEPT !.copies = 2]) /\ ~Accept(sc, [Perfect EXCEPT !.rcopies = 1])
+(* every parameter kind and every category meets every return kind *)
+RetCoverage == /\ \A k \in Kind, r \in Ret : \E s \in Family : s.kind = k /\ s.ret = r
+               /\ \A c \in Cat, r \in Ret : \E s \in Family : s.cat = c /\ s.ret = r
+               /\ \A h \in Shape, r \in Ret : \E s \in Family : s.shape = h /\ s.ret = r
 =============================================================================
